@@ -67,6 +67,7 @@ PAGES = {
     "reqglobal": "{{#invoke:h|reqglobal}} {{#invoke:h|reqglobal}}",
     "nw_in_template": "{{nw|p}} and <nowiki>''q''</nowiki>",
     "nw_in_template2": "<nowiki>first</nowiki>{{nw}}{{a|<nowiki>|</nowiki>}}",
+    "open_pre": "an example:\n<pre>\nfoo(bar)\n",
 }
 for _c in CHANNELS:
     PAGES["chan_" + _c] = "{{#invoke:h|probe_%s}}{{#invoke:h|mutate_%s}}{{#invoke:h|probe_%s}}" % (_c, _c, _c)
@@ -105,6 +106,11 @@ def events(tier):
     for p in ("templates", "nw_in_template"):
         for op in OPTION_OPS:
             ev.append(("page", p, op))
+    # a further call on the SAME page (no start_page in between): what one parse()/expand() call sets up for itself must be
+    # gone when the next one starts (the messages of the page accumulate, so only result and path are compared)
+    for p in ("soup1", "soup2", "deflist", "open_pre"):
+        ev.append(("same_page", p, "parse"))
+    ev.append(("same_page", "templates", "expand"))
     for o in OTHER_CTX:
         ev.append(("other_ctx", o))
     ev.append(("start_section", "Sec"))
@@ -135,6 +141,17 @@ def msgs(ctx):
 
 def apply_event(ctx, ev):
     """Executes one event; returns its observation (JSON-able)."""
+    if ev[0] == "same_page":
+        _, p, op = ev
+        if ctx.title is None:
+            ctx.start_page("Tt first")
+        try:
+            out = dump(ctx.parse(PAGES[p])) if op == "parse" else ctx.expand(PAGES[p])
+            if op == "parse" and isinstance(out, list) and out[:1] == ["ROOT"]:
+                out = ["ROOT"] + out[2:]     # the root carries the title of whatever page is current
+        except Exception as e:
+            out = "EXC " + type(e).__name__ + ": " + str(e)[:80]
+        return {"result": out, "expand_stack": list(ctx.expand_stack)[1:]}
     if ev[0] == "page":
         _, p, op = ev
         ctx.start_page("Tt " + p)
@@ -223,7 +240,7 @@ def work(payload, skip, report):
             for rest in itertools.product(evs, repeat=depth - len(pre)):
                 hist = list(pre) + list(rest)
                 last = hist[-1]
-                if last[0] != "page":
+                if last[0] not in ("page", "same_page"):
                     continue   # only page events are observed
                 report(i)
                 i += 1
@@ -338,7 +355,7 @@ def baselines(tier):
         dbpath = make_db(d)
         out = []
         for e in events(tier):
-            if e[0] == "page":
+            if e[0] in ("page", "same_page"):
                 out.append((list(e), in_child(run_history, dbpath, [e])))
     finally:
         shutil.rmtree(d, ignore_errors=True)
